@@ -91,6 +91,35 @@ Theorem C15_skip_means_unrecorded : forall lg m, snd (run_logger lg true m) = []
 Proof. exact skip_means_unrecorded. Qed.
 Print Assumptions C15_skip_means_unrecorded.
 
+(* Logger errors (an error return makes the proxy add a Warning header to the
+   forwarded message).  No logger fails on a body Go can decode, none fails
+   on a skipped exchange, and the only failing combination is: HAR, response,
+   body captured, content coding active, body not decodable (C15-K1). *)
+Theorem C15_no_logger_error_partial : forall lg skip m, logger_errors lg skip DecOk m = false.
+Proof. exact no_error_when_decodable. Qed.
+Print Assumptions C15_no_logger_error_partial.
+
+Theorem C15_no_logger_error_refuted :
+  exists m, wf_b m = true /\ logger_errors (LHar CapOn) false DecFailRead m = true.
+Proof. exact har_errors_on_undecodable_body. Qed.
+Print Assumptions C15_no_logger_error_refuted.
+
+Theorem C15_logger_error_only_har_response_capture : forall lg skip cls m,
+  logger_errors lg skip cls m = true ->
+  exists c, lg = LHar c /\ skip = false /\ m_isreq m = false /\ capture_on c m = true
+            /\ compress_active m = true /\ cls <> DecOk.
+Proof. exact only_har_response_capture_errors. Qed.
+Print Assumptions C15_logger_error_only_har_response_capture.
+
+Theorem C15_skipped_never_errors : forall legacy lg cls m, logger_errors_gen legacy lg true cls m = false.
+Proof. exact skipped_never_errors. Qed.
+Print Assumptions C15_skipped_never_errors.
+
+Theorem C15_legacy_text_logger_error_refuted :
+  exists m, wf_b m = true /\ logger_errors_legacy (LText false true) false DecFailOpen m = true.
+Proof. exact legacy_text_logger_errors. Qed.
+Print Assumptions C15_legacy_text_logger_error_refuted.
+
 (* The oracle evaluated on the real code's outputs is the property. *)
 Theorem C15_oracle_is_the_property : forall skip m o,
   c15_ok skip m o = true <->
